@@ -215,6 +215,10 @@ func buildEnvDocs(parties []*envParty, ktName string, r *Rng) *envVDR {
 		doc := &did.Doc{ID: docID, Context: []string{"https://www.w3.org/ns/did/v1"}}
 		for j := 0; j < n; j++ {
 			id := fmt.Sprintf("%s#ka-%d", docID, j)
+			if j < pos && r.Bool() {
+				// a key listed BEFORE the party's own whose fragment merely ends with the own key's fragment
+				id = fmt.Sprintf("%s#old%d-ka-%d", docID, j, pos)
+			}
 			src := filler[j%2]
 			if j == pos {
 				src = p
@@ -224,7 +228,7 @@ func buildEnvDocs(parties []*envParty, ktName string, r *Rng) *envVDR {
 			// here does so too (callers keep naming keys by the absolute id)
 			vmID := id
 			if r.N(2) == 0 {
-				vmID = fmt.Sprintf("#ka-%d", j)
+				vmID = id[strings.Index(id, "#"):]
 			}
 			ka, err := envKeyAgreement(src, ktName, docID, vmID)
 			if err != nil {
